@@ -163,7 +163,7 @@ func c07(c *core.Ctx, r *core.Report) {
 	tpkg := "pkg/f1/testing"
 	failedFld := handleFields(c).failed
 	tdFailedFld := handleFields(c).tdFailed
-	tearingFld := handleFields(c).tearing
+	_ = handleFields(c).tearing
 	isFail := func(f *ssa.Function) bool {
 		return isMethod(f, testingPkg, "T", "Fail") || isMethod(f, testingPkg, "T", "FailNow")
 	}
@@ -373,7 +373,7 @@ func c07(c *core.Ctx, r *core.Report) {
 				wantTearing := fld == tdFailedFld
 				okGuard := false
 				for _, g := range an.GuardsOfEvent(e) {
-					if f, _ := an.TerminalField(g.Cond); an.SameField(f, tearingFld) && g.Polarity == wantTearing {
+					if tearing, ok := handleFields(c).tearingTest(g.Cond, g.Polarity); ok && tearing == wantTearing {
 						okGuard = true
 					}
 				}
@@ -522,7 +522,7 @@ func resetClearsOnly(c *core.Ctx, r *core.Report, only string) {
 		{"teardownFailed=false", atomicFalse(handleFields(c).tdFailed)},
 		{"tearingDown=false", plainStore(handleFields(c).tearing, func(v ssa.Value) bool {
 			k, ok := v.(*ssa.Const)
-			return ok && k.Value != nil && k.Value.String() == "false"
+			return ok && k.Value != nil && k.Value.String() == handleFields(c).tearingOff
 		})},
 		{"teardownStack=empty", plainStore(handleFields(c).stack, func(v ssa.Value) bool {
 			d := an.D().Of(v)
